@@ -1027,6 +1027,11 @@ func descendsFrom(v ssa.Value, np *ssa.Parameter, seen map[ssa.Value]bool) bool 
 		return true
 	}
 	seen[v] = true
+	if u := unwrapLoad(v); u != v {
+		if _, stillLoad := u.(*ssa.UnOp); !stillLoad {
+			return descendsFrom(u, np, seen)
+		}
+	}
 	switch x := v.(type) {
 	case *ssa.Phi:
 		for _, e := range x.Edges {
@@ -1038,6 +1043,10 @@ func descendsFrom(v ssa.Value, np *ssa.Parameter, seen map[ssa.Value]bool) bool 
 	case *ssa.UnOp:
 		if x.Op != token.MUL {
 			return false
+		}
+		// an element of a list that only ever receives descendants (children collected first, rendered after)
+		if ia, ok := x.X.(*ssa.IndexAddr); ok {
+			return listOfDescendants(ia.X, np, seen, 0)
 		}
 		fa, ok := x.X.(*ssa.FieldAddr)
 		if !ok {
@@ -1051,6 +1060,55 @@ func descendsFrom(v ssa.Value, np *ssa.Parameter, seen map[ssa.Value]bool) bool 
 			return name == "FirstChild" || name == "LastChild"
 		}
 		return descendsFrom(fa.X, np, seen)
+	}
+	return false
+}
+
+// listOfDescendants: a slice of nodes that starts empty and only grows by
+// appending nodes that descend from np.
+func listOfDescendants(v ssa.Value, np *ssa.Parameter, seen map[ssa.Value]bool, d int) bool {
+	if d > 8 {
+		return false
+	}
+	v = unwrapLoad(v)
+	if seen[v] {
+		return true
+	}
+	seen[v] = true
+	switch x := v.(type) {
+	case *ssa.Const:
+		return x.Value == nil
+	case *ssa.MakeSlice:
+		k, isC := constInt(x.Len)
+		return isC && k == 0
+	case *ssa.Slice:
+		if al, ok := x.X.(*ssa.Alloc); ok && arrayLen(al) == 0 {
+			return true
+		}
+		return listOfDescendants(x.X, np, seen, d+1)
+	case *ssa.Phi:
+		for _, e := range x.Edges {
+			if !listOfDescendants(e, np, seen, d+1) {
+				return false
+			}
+		}
+		return true
+	case *ssa.Call:
+		if b, ok := x.Call.Value.(*ssa.Builtin); ok && b.Name() == "append" && len(x.Call.Args) == 2 {
+			if !listOfDescendants(x.Call.Args[0], np, seen, d+1) {
+				return false
+			}
+			elems, ok := variadicElements(x.Call.Args[1])
+			if !ok {
+				return false
+			}
+			for _, e := range elems {
+				if !descendsFrom(e, np, seen) {
+					return false
+				}
+			}
+			return true
+		}
 	}
 	return false
 }
